@@ -185,6 +185,14 @@ func (p *pkg) evalStr(e ast.Expr) (string, bool) {
 		return v, ok
 	case *ast.ParenExpr:
 		return p.evalStr(e.X)
+	case *ast.CallExpr: // strings.Repeat("0", 9)
+		if p.src(e.Fun) == "strings.Repeat" && len(e.Args) == 2 {
+			s, ok1 := p.evalStr(e.Args[0])
+			n, ok2 := p.evalInt(e.Args[1])
+			if ok1 && ok2 && n >= 0 && n < 200 {
+				return strings.Repeat(s, int(n)), true
+			}
+		}
 	}
 	return "", false
 }
@@ -333,6 +341,7 @@ func main() {
 	emitMask(describe, achcli, *out)
 	emitSites(root, server, *out)
 	emitTopics(root, *out)
+	emitValidators(root, *out)
 
 	// summary for the driver
 	fmt.Printf("gofacts: ok unrecognised=%d\n", len(unrecognised))
